@@ -84,7 +84,7 @@ def view (d : D) : String :=
     | some bh => some (p.1 ++ ":" ++ (if pend then "p" else "") ++ "e@" ++ d.label bh)
     | none => if pend then some (p.1 ++ ":p") else none)
   "head=" ++ head ++ " cur=" ++ cur ++ " marks=" ++ marks ++ " H=" ++ joinOrDash H ++ " Q=" ++ joinOrDash Q ++
-    " VH=" ++ joinOrDash VH ++ " TC=" ++ joinOrDash TC ++ " B=" ++ joinOrDash B ++ " V=" ++ joinOrDash V ++
+    " VH=" ++ joinOrDash VH ++ " TC=" ++ (if d.maxH ≥ 90 then "~" else joinOrDash TC) ++ " B=" ++ joinOrDash B ++ " V=" ++ joinOrDash V ++
     " F=" ++ joinOrDash F ++ " T=" ++ joinOrDash T
 
 def parseTxs (d : D) (w : String) : Option (List Nat) :=
